@@ -6,6 +6,10 @@ import CnbVerif.Props.C05
 #print axioms CnbVerif.C05.build_ok
 #print axioms CnbVerif.C05.build_error
 #print axioms CnbVerif.C05.gatekeeping
+#print axioms CnbVerif.C05.mandatory_variable_missing
+#print axioms CnbVerif.C05.mandatory_variable_unset
+#print axioms CnbVerif.C05.target_variable_missing_is_an_error
+#print axioms CnbVerif.C05.outcome_independent_of_values
 #print axioms CnbVerif.C05.on_error_at_most_once
 #print axioms CnbVerif.C05.no_on_error_when_exit_0_or_100
 #print axioms CnbVerif.C05.plan_written_only_when_passed_with_plan
